@@ -717,7 +717,9 @@ PROPS["C15"] = dict(
            "reducers (structural scan); the built-in reducers reduce methods/descriptors/partials to the stated getattr/_rebuild_partial forms; set_loky_pickler selects "
            "the normalised name or leaves both globals unchanged on failure; a call item records the pickler name at submission and re-selects it before the task runs.",
     not_covered="what the C implementation of pickle / cloudpickle does with the table (T-stdlib, T-deps); the member-descriptor set in _set_dispatch_table is an "
-                "opaque call that only touches the pickler instance (A-user).",
+                "opaque call that only touches the pickler instance (A-user). Class methods are still reduced to a look-up of the name on their class (equal behaviour there "
+                "rests on the class not shadowing the name); functools.partial objects lose instance attributes set on them; the *task* is pickled by the feeder "
+                "thread with whatever pickler is selected at that time (the property only speaks of the result side).",
     assumptions=["A-user", "A-posix"],
     abstractions=COMMON_ABS,
     extra=[scan_dumps_call_sites, lemma_partial_roundtrip],
